@@ -408,8 +408,13 @@ class StmtMixin:
         if isinstance(test, ast.UnaryOp) and isinstance(test.op, ast.Not):
             return self.narrow(st, test.operand, not positive)
         if (positive and isinstance(test, ast.Call) and self.dotted(test.func) == "isinstance" and isinstance(test.args[0], ast.Name)
-                and isinstance(test.args[1], (ast.Name, ast.Attribute))):
-            nm, cls = test.args[0].id, self.dotted(test.args[1]).split(".")[-1]
+                and isinstance(test.args[1], (ast.Name, ast.Attribute, ast.Tuple))):
+            nm = test.args[0].id
+            if isinstance(test.args[1], ast.Tuple):
+                names = {(self.dotted(e) or "?").split(".")[-1] for e in test.args[1].elts}
+                cls = "list" if names and names <= {"list", "set", "tuple", "List"} else (names.pop() if len(names) == 1 else "?")
+            else:
+                cls = self.dotted(test.args[1]).split(".")[-1]
             ty = self.NARROW.get(cls) or (cls if cls in self.reg.classes else None)
             cur = st.env.get(nm)
             if ty and isinstance(cur, V) and (cur.ty is None or base_type(cur.ty) != ty):
@@ -741,8 +746,7 @@ class StmtMixin:
             nf = fresh_int('front'); sh.assume(nf >= st0.front); sh.front = nf
         self.havoc_frame(sh, fields, names, pre_env, st0)
         sh.assume(z3.And(0 <= i, i < n))
-        if loop_effects:
-            sh.trace.append(Effect("loop", [], s.lineno, None, inner=sorted(loop_effects)))
+        sh.trace.append(Effect("loop:" + key, [], s.lineno, None, inner=sorted(loop_effects)))
         self.loop_unchanged(sh, st0, it)
         for e, f in inv_terms(sh, i):
             sh.assume(f)
@@ -777,8 +781,7 @@ class StmtMixin:
             sa.assume(f)
         for e in lc.get("exit_assume", []):
             sa.assume(self.spec(sa, st0, e, {}))
-        if loop_effects:
-            sa.trace.append(Effect("loop", [], s.lineno, None, inner=sorted(loop_effects)))
+        sa.trace.append(Effect("loop:" + key, [], s.lineno, None, inner=sorted(loop_effects)))
         out.append(Res(sa))
         out += breaks
         return out
@@ -830,8 +833,7 @@ class StmtMixin:
         if allocs:
             nf = fresh_int('front'); sh.assume(nf >= st0.front); sh.front = nf
         self.havoc_frame(sh, fields, names, pre_env, st0)
-        if self._loop_effects:
-            sh.trace.append(Effect("loop", [], s.lineno, None, inner=sorted(self._loop_effects)))
+        sh.trace.append(Effect("loop:while", [], s.lineno, None, inner=sorted(self._loop_effects)))
         for e, f in inv_terms(sh):
             sh.assume(f)
         exits = []
